@@ -663,6 +663,44 @@ func propC07(c *Ctx) {
 	c.Rule("C07.R9", func() { hookEffectsContained(c, "C07.R9") })
 	c.Rule("C07.R10", func() { routedEventsForwarded(c, "C07.R10", "handleBridgeHook") })
 
+	// the refund's base-denom lookup cannot come back "not an L1 token": by the time a refund
+	// is announced, this very deposit has made sure the denom pair exists
+	c.Rule("C07.R11", func() {
+		fn := childHandler(c, "FinalizeTokenDeposit")
+		o := c.Ob("C07.R11", "FinalizeTokenDeposit: before a refund is announced the denom pair of req.Amount.Denom exists (Has == true) or was just set to req.BaseDenom - the base-denom lookup of the refund cannot fail the handler")
+		po := PO{Params: hParams, NoInline: []string{".Validate", "checkBridgeExecutorPermission", "handleBridgeHook", "safeDepositToken", "GetBaseDenom"}}
+		for _, p := range c.Paths(fn, po) {
+			o.Paths++
+			o.Facts += p.NFacts()
+			for _, i := range p.Find(func(ev *Event) bool { return ev.Kind == EvCall && strings.HasSuffix(ev.Call.Name, "Keeper).GetBaseDenom") }) {
+				o.Sites++
+				ev := &p.Events[i]
+				if ev.Call.Args[len(ev.Call.Args)-1].Key() != "req.Amount.Denom" {
+					continue
+				}
+				ensured := false
+				for _, j := range collEvents(p, i, "DenomPairs", "Has") {
+					h := p.Events[j].Call
+					if h.Args[2].Key() == "req.Amount.Denom" && p.factIs(i, h.String()+".0", true) {
+						ensured = true
+					}
+				}
+				for _, j := range collEvents(p, i, "DenomPairs", "Set") {
+					st := p.Events[j].Call
+					if st.Args[2].Key() == "req.Amount.Denom" && st.Args[3].Key() == "req.BaseDenom" && p.factIs(i, "("+st.String()+" == nil)", true) {
+						ensured = true
+					}
+				}
+				if !ensured {
+					o.Fail(c.evPos(ev), "the refund looks up the base denom of req.Amount.Denom on a path where this deposit neither found nor registered the denom pair: the lookup fails with ErrNonL1Token, the handler errors and the bridge stalls at this sequence", c.Dump(p, i))
+				}
+			}
+		}
+		if o.Sites == 0 {
+			o.Fail(c.W.Pos(fn.Pos()), "no base-denom lookup on any path (floor 1)", nil)
+		}
+	})
+
 	c.Rule("C07.R5", func() {
 		o := c.Ob("C07.R5", "FinalizeTokenDeposit: every '=' path that reaches a return has advanced the L1 sequence (independent of credit/hook outcome)")
 		seenCredited, seenFailed := false, false
